@@ -122,6 +122,11 @@ READS = list(netmon.MEMOS) + ["links", "per_node"]
 
 def run_history(M, rec, U, ops, seq, rng, read_all=True):
     net = M.Network()
+    if not read_all and rng.random() < 0.4:
+        from vf import userkinds as UK
+
+        net = UK.Motorway()  # a user-defined Network subclass: the lookups are inherited
+        rec.count("histories_on_a_network_subclass")
     netmon.new_history()
     for kind, fn, desc in seq:
         before = [m for m in netmon.MEMOS if m in net.__dict__]
